@@ -144,11 +144,9 @@ Fixpoint mon_steps (inactive lifetime : Z) (r : registry) (np : N) (chans : list
   match l with
   | [] => true
   | st :: rest =>
-      if op_det (st_op st) then
-        let r' := g_step r (st_op st) in
-        match st_obs st with Some ob => mon_obs inactive lifetime r' np chans ob | None => true end
-        && mon_steps inactive lifetime r' np chans rest
-      else true      (* outside the deterministic specification: nothing more is claimed *)
+      let r' := g_step r (st_op st) in
+      match st_obs st with Some ob => mon_obs inactive lifetime r' np chans ob | None => true end
+      && mon_steps inactive lifetime r' np chans rest
   end.
 
 (* ---- the wire form of a case: names are indices into one table (terms without local
